@@ -32,7 +32,11 @@ RULE = ("part N: content c = token soup (1-14 tokens over the C01 alphabet: ever
         "11 spellings, magic words, URL schemes, include/pre/comment/nowiki openers, separators | || }} ]] , list/table markers at "
         "line start; '&' only when no entity is formed; closing tag removed; 4% tagged placeholder-range class; bounded-exhaustive "
         "part: every single map character and every ordered pair of map characters) x opener/closer spellings x embedding context "
-        "(28) for expand, x 3 parse modes at top level, x 15 embedding contexts for parse; part K: token soups with 1-4 inserted "
+        "(28) for expand, x 3 parse modes at top level, x 17 embedding contexts for parse (incl. directly after the URL of an external "
+        "link), x 12 adjacency contexts (closed inline construct -- link, external link, template, argument, bold, HTML element, magic "
+        "word, text -- directly followed by the nowiki: the tree must be the construct's tree + one text node); content classes: soup, "
+        "separators, strict (map characters + letters only, asserted in the expand-first parse modes), near-miss spellings of the closing "
+        "tag (U+212A/U+0131/U+0130 letters, U+00A0/U+2003/U+0085/U+3000 blanks) followed by markup, blank-only; part K: token soups with 1-4 inserted "
         "comments (content from the same alphabet, newline before/after, adjacent, at start/end) and structured embeddings "
         "(template argument, table cell, list, heading, link, inside nowiki, around nowiki delimiters) under expand and parse. "
         "non-trivial = distinct (content, context) whose content contains >=1 of the 15 map characters / distinct input with >=1 "
@@ -45,14 +49,18 @@ ASSUMPTIONS = [
     "applies template-body extraction before nowiki is looked at; the statement's quantifier does not list template bodies)",
     "comment relation asserted only when gluing the kept parts creates/destroys no comment/nowiki delimiter "
     "(otherwise 'the input with each comment deleted' is a different document by construction)",
-    "parse sentinel relation: the sentinel has the same leading/trailing blank class as c is NOT assumed; "
-    "contexts are chosen so that the nowiki is preceded by non-blank text of the embedding node",
+    "parse sentinel relation: the sentinel has the same leading/trailing blank class as c is NOT assumed",
+    "'the closing tag' = </nowiki + ASCII blanks + > in either ASCII case; spellings that only Unicode case folding / Unicode \\s "
+    "would accept are ordinary content",
+    "adjacency relation: a bare URL is not used as prefix (it is not a closed construct: where it ends is decided by what follows)",
     "per-case CPU budget 10 s (ITIMER_VIRTUAL; 2 s for the tagged placeholder class) stands for 'returns'",
     "Lua stand-in pages installed so that {{#invoke:}} tokens in comment soups fail/behave the same on both sides",
 ]
 WALL = {"quick": 900, "thorough": 5400}
 
 SENT = "QZX"
+# one mechanism, seen by both parts: the tag regexes accept spellings that only Unicode case folding / Unicode \\s match
+NONASCII_SIG = "nowiki/tag-spelling-with-non-ascii-letter-or-blank-accepted-as-nowiki-tag"
 PMODES = [{}, {"pre_expand": True}, {"expand_all": True}]
 OPENERS = ["<nowiki>", "<nowiki>", "<nowiki>", "<NOWIKI>", "<nowiki >", "<NoWiki\n>", "<nowiki\t >"]
 CLOSERS = ["</nowiki>", "</nowiki>", "</nowiki>", "</NOWIKI>", "</nowiki >", "</nowiki\n>", "</NoWiki  >"]
@@ -97,7 +105,22 @@ PCTX = [
     ("cell-multi", "{|\n! h%s !! i\n|-\n| a || b%s\n|}"), ("head", "== h%s ==\nx"), ("html", "<div class=\"k\">d%s</div>"),
     ("bold", "'''b%s''' ''i%s''"), ("nested", "{|\n| {{e|[[y|t%s]]}}\n|}"),
 ]
+# the nowiki directly after the URL of an external link (blank-only content must stay content, not become the separator)
+PCTX += [("ext-url-adjacent", "[http://x.example%s foo]"), ("ext-url-adjacent-end", "[http://x.example/p%s]")]
 PBYNAME = dict(PCTX)
+# adjacency contexts (check "parse-adj"): a closed inline construct P directly followed by the nowiki (+ optional text S).
+# Oracle (concatenation relation, both sides real runs): children(parse(P + <nowiki>c</nowiki> + S)) ==
+# children(parse(P)) + one text node Q(c)+S (merged with a preceding text node): the neighbour does not take c.
+ADJ = [
+    ("after-link", "[[a]]", "after-link"), ("after-link-text", "[[a|b]]", "after-link"), ("after-link-ns", "[[w:a#f|]]", "after-link"),
+    ("after-extlink", "[http://x.example y]", "after-extlink"),
+    # (a bare URL is not a closed construct -- where it ends is decided by the characters after it -- so it is no prefix here)
+    ("after-template", "{{e|1}}", "after-template"), ("after-arg", "{{{1}}}", "after-arg"), ("after-bold", "'''b'''", "after-bold"),
+    ("after-html", "<b>x</b>", "after-html"), ("after-br", "<br>", "after-html"), ("after-text", "w", "after-text"),
+    ("after-magic-word", "__NOTOC__", "after-magic-word"), ("after-nowiki-slash", "[[a]]<nowiki/>", "after-nowiki-slash"),
+]
+ADJBYNAME = {a[0]: a for a in ADJ}
+ADJ_SUFFIX = ["", "z"]
 LIB_EXTRA = {"e": "[{{{1}}}]", "e2": "({{{1}}}/{{{2}}})", "en": "/{{{k}}}/", "mark": "EXPANDED"}
 BODY_EXCL = re.compile(r"(?i)<!--|-->|</?(noinclude|includeonly|onlyinclude)\b[^>]*>")
 
@@ -108,6 +131,7 @@ def floors(tier):
         "oracle.nowiki.parse-top": 1500, "oracle.nowiki.parse-ctx": 1500,
         "oracle.comment.expand": 3000, "oracle.comment.parse": 3000,
         "sets.mapchars": 15, "sets.xctx": len(XCTX), "sets.pctx": len(PCTX), "sets.comment-features": 10,
+        "sets.adjctx": len(ADJ), "oracle.nowiki.parse-adj": 5000, "counters.class.near-closer": 300, "counters.class.blank": 100,
         "counters.exhaustive.single": 15, "counters.exhaustive.pair": 225,
         "counters.comment.removed": 3000, "counters.class.placeholder": 1,
         "anchors.core.preprocess_text": 10000, "anchors.common.nowiki_quote": 5000,
@@ -142,7 +166,20 @@ def gen_content(rng, soup):
         c = "".join(rng.choice(toks) for _ in range(rng.randint(1, 10)))
         c = R.CLOSE_RE.sub("", c)
         return c, "strict"
-    if r < 0.19:
+    if r < 0.16:
+        # near-miss spellings of the closing tag (not the tag: see vf.ref.c15_ref.CLOSE_RE) followed by markup
+        pre = soup.soup(rng, rng.randint(1, 4), placeholders=False, exclude=("\U0010203d",))[0] if rng.random() < 0.6 else ""
+        post = rng.choice(["{{mark}}", "[[x]]", "{{{1}}}", "{{e|A}}", "x", "", "''i''", "{{#if:1|y}}"])
+        c = pre + rng.choice(R.NEAR_CLOSERS) + post
+        if rng.random() < 0.3:
+            c += rng.choice(R.NEAR_CLOSERS) + "t"
+        c = R.CLOSE_RE.sub("", c)
+        if R.ENTITY_RE.search(c):
+            c = c.replace("&", "")
+        return c, "near-closer"
+    if r < 0.185:
+        return rng.choice([" ", "  ", "\t", " \t ", "\n", " \n", "\n ", "\n\n", "\r\n", "   "]), "blank"
+    if r < 0.24:
         # separators and line-start markers, densely
         toks = ["|", "||", "}}", "]]", "{{", "[[", "\n*", "\n#", "\n:", "\n;", "\n{|", "\n|-", "\n|}", "\n|", "\n!", "=", "\n==",
                 "{{{1}}}", "{{mark}}", "{{e|x}}", "{{ta|", "<!--", "-->", "<nowiki>", "<nowiki/>", "__NOTOC__", "'''", "''",
@@ -244,6 +281,7 @@ class Monitor:
         self.calls = []
         self.pbase = {}
         self.xbase = {}
+        self.adjbase = {}
         self.kindN = 0
         self._orig_magic = None
 
@@ -370,9 +408,43 @@ class Monitor:
                 name, PMODES[mode], c[:120], str(got)[:300], str(want)[:300])
         return None
 
+    def _adjbase(self, name, mode):
+        k = (name, mode)
+        if k not in self.adjbase:
+            st, root = self.p(ADJBYNAME[name][1], mode)
+            self.adjbase[k] = canon(root.children) if st == "ok" else None
+        return self.adjbase[k]
+
+    def parse_adj_case(self, c, name, mode, oc, suffix):
+        base = self._adjbase(name, mode)
+        if base is None:
+            return "parse-adj-baseline", "prefix %r does not parse" % ADJBYNAME[name][1]
+        src = ADJBYNAME[name][1] + self.nw(c, oc) + suffix
+        st, root = self.p(src, mode)
+        if st != "ok":
+            return (st if st == "no-return" else "raises:" + root), "%s %s on parse(%r, %r)" % (st, root, src[:200], PMODES[mode])
+        self.obs.check("nowiki.parse-adj")
+        extra = [n for n in self.calls if n not in ("e", "en")]
+        if extra:
+            return "expanded-inside", "template_fn saw %r during parse(%r, %r)" % (extra[:5], src[:200], PMODES[mode])
+        txt = R.Q(c) + suffix
+        want = list(base)
+        if txt:
+            if want and isinstance(want[-1], str):
+                want[-1] = want[-1] + txt
+            else:
+                want.append(txt)
+        got = canon(root.children)
+        if got != tuple(want):
+            return "parse-adjacent-node-takes-content", "parse(%r, %r).children = %r, expected %r (= children of %r + one text node)" % (
+                src[:200], PMODES[mode], str(got)[:300], str(tuple(want))[:300], ADJBYNAME[name][1])
+        return None
+
     def nowiki_eval(self, case):
         k = case["check"]
         oc = tuple(case.get("oc", (0, 0)))
+        if k == "parse-adj":
+            return self.parse_adj_case(case["c"], case["ctx"], case["mode"], oc, case.get("suffix", ""))
         if k == "expand":
             return self.expand_case(case["c"], case["ctx"], oc)
         if k == "parse-top":
@@ -396,6 +468,8 @@ class Monitor:
 
     # ----- the "parse after an expand pass" class, made precise
     def _pfmt(self, case):
+        if case["check"] == "parse-adj":
+            return ADJBYNAME[case["ctx"]][1] + "%s" + case.get("suffix", "")
         return "%s" if case["check"] == "parse-top" else PBYNAME[case["ctx"]]
 
     def _xbase(self, fmt, mode):
@@ -491,6 +565,8 @@ class Monitor:
             # re-parse explains the tree, but the strict clause fails: content of map characters + letters only
             r = self.restricted(c) if any(self.outside(ch) for ch in c) else c
             mc = "".join(R.ddmin(list(r), lambda ch: fails("".join(ch)), 400)) if len(r) > 1 else r
+            if case["check"] == "parse-adj":
+                return "nowiki/parse-after-expand-pass/content-joins-preceding-construct/ctx=%s" % ADJBYNAME[case["ctx"]][2], dict(case, c=mc)
             return "nowiki/parse-after-expand-pass/map-chars-and-letters-reinterpreted/c=%s" % R.shape(mc), dict(case, c=mc)
         # not explained by the documented mechanism: own signatures
         mc = "".join(R.ddmin(list(c), lambda ch: fails("".join(ch)) and not self.explained_by_reparse(dict(case, c="".join(ch))), 400)) \
@@ -499,6 +575,8 @@ class Monitor:
         if not fails(mc, mcase):
             mcase = dict(case, c=mc)
         ctxtag = case.get("ctx", "top")
+        if case["check"] == "parse-adj":
+            ctxtag = ADJBYNAME[ctxtag][2]
         if case["check"] == "parse-ctx":
             top = dict(mcase, check="parse-top")
             top.pop("ctx", None)
@@ -537,13 +615,19 @@ class Monitor:
             if case["check"] != "expand" and case["mode"] != 0 and c != "" and self.nowiki_eval(dict(case, mode=0)) is None:
                 # fails only when parse() runs an expand pass first (pre_expand / expand_all)
                 return self._sig_after_expand(case, prob)
-            mc = "".join(R.ddmin(list(c), failing)) if len(c) > 1 else c
+            if case["check"] != "expand" and case["mode"] != 0:
+                q0 = self.nowiki_eval(dict(case, mode=0))
+                if q0 is not None and q0[0] == rule:
+                    case = dict(case, mode=0)   # not specific to the expand-first modes: minimise and report in plain mode
+            mc = "".join(R.ddmin(list(c), lambda ch: failing(ch, case))) if len(c) > 1 else c
             mcase = dict(case, c=mc, oc=(0, 0))
             if not failing(list(mc), mcase):
                 mcase = dict(case, c=mc)
             ctxtag = case.get("ctx", "top")
             if case["check"] == "expand" and ctxtag in ("body", "body-arg", "defval"):
                 ctxtag = "template-body"
+            if case["check"] == "parse-adj":
+                ctxtag = ADJBYNAME[ctxtag][2]
             if case["check"] == "expand" and ctxtag != "top":
                 q = self.nowiki_eval(dict(mcase, ctx="top"))
                 if q is not None and q[0] == rule:
@@ -561,7 +645,7 @@ class Monitor:
                 if q0 is None and mc != "":
                     # minimisation slipped into the expand-pass-only class
                     return self._sig_after_expand(mcase, prob)
-            cshape = R.shape(mc)
+            cshape = "blank" if mc.isspace() else R.shape(mc)
             if len(mc) == 1 and mc in R.MAP:
                 # canonical form: which single map characters fail the same way
                 fails = [k for k in R.MAP if failing([k], mcase)]
@@ -573,6 +657,8 @@ class Monitor:
                     cshape = "%d-map-chars" % len(fails)
         finally:
             self.obs = saved
+        if "nonascii-spelling" in cshape:
+            return NONASCII_SIG, mcase
         sig = "nowiki/%s/ctx=%s%s%s/c=%s" % (rule, ctxtag, modetag, octag, cshape)
         return sig, mcase
 
@@ -642,6 +728,8 @@ class Monitor:
                     f = "expand"
         finally:
             self.obs = saved
+        if "nonascii-spelling" in R.shape(m, 40):
+            return NONASCII_SIG, dict(case, text=m, f=f)
         return "comment-relation%s/min=%s" % (ftag, R.shape(m, 18)), dict(case, text=m, f=f)
 
 
@@ -716,6 +804,12 @@ def run_nowiki(mon, obs, rng, c, cls, budget, exh=None):
     pn = [x[0] for x in PCTX]
     for n in (pn if exh == "single" else rng.sample(pn, 2)):
         plan.append({"check": "parse-ctx", "ctx": n, "mode": rng.randrange(3)})
+    for a in ([x[0] for x in ADJ] if exh == "single" or cls == "blank" else rng.sample([x[0] for x in ADJ], 2)):
+        plan.append({"check": "parse-adj", "ctx": a, "mode": 0 if rng.random() < 0.6 else rng.choice((1, 2)),
+                     "suffix": rng.choice(ADJ_SUFFIX)})
+    if cls == "blank":
+        for n in ("ext-url-adjacent", "ext-url-adjacent-end", "ext-text", "link-text"):
+            plan.append({"check": "parse-ctx", "ctx": n, "mode": rng.randrange(3)})
     if cls == "strict" or exh:
         # the strict clause under the modes that run an expand pass first
         plan.append({"check": "parse-top", "mode": 1})
@@ -740,6 +834,10 @@ def run_nowiki(mon, obs, rng, c, cls, budget, exh=None):
         if pl["check"] == "expand":
             obs.add("xctx", pl["ctx"])
             obs.count("xctx." + pl["ctx"])
+        elif pl["check"] == "parse-adj":
+            obs.add("adjctx", pl["ctx"])
+            obs.count("parse.kindN")
+            obs.count("pmode.%d" % pl["mode"])
         elif pl["check"] == "parse-ctx":
             obs.add("pctx", pl["ctx"])
             obs.count("parse.kindN")
@@ -755,16 +853,16 @@ def run_nowiki(mon, obs, rng, c, cls, budget, exh=None):
         if prob is None:
             continue
         obs.count("nowiki.failures")
-        if not R.PLACEHOLDER_RE.search(cc) and prob[0] != "no-return" and mon.fresh_eval(case) is None:
+        cheap = None
+        if not (budget[0] > 0 or budget[1] % 20 == 0):
+            cheap = mon.cheap_class(case, prob)
+        if cheap is None and not R.PLACEHOLDER_RE.search(cc) and prob[0] != "no-return" and mon.fresh_eval(case) is None:
             # passes on a context without history: the mechanism is state carried over from earlier calls;
             # content minimisation is meaningless (it changes the history), one signature per failed rule
             obs.count("nowiki.failures.state-dependent")
             obs.violation("nowiki/state-dependent(passes-on-fresh-context)/" + prob[0].split(":")[0], prob[1],
                           dict(case, part="nowiki", state_dependent=True))
             continue
-        cheap = None
-        if not (budget[0] > 0 or budget[1] % 20 == 0):
-            cheap = mon.cheap_class(case, prob)
         if cheap is None:
             budget[0] -= 1
             sig, mcase = mon.nowiki_sig(case, prob)
